@@ -55,6 +55,10 @@ def gen_c07(g, lines, k):
         lines.append("wire recv %s 800 msg=%s # spec=C07 dest U %s # spec=C07 vias %s # spec=C01 relay" % (hx(be), hx(req), hx(be), hxs([own, exp_v.text()])))
         # the backend answers towards the proxy's own Via; the response must travel back to the true source
         resp = msg("SIP/2.0 200 OK", [("Via", own), ("Via", exp_v.text()), ("From", "<sip:a@ua.test>;tag=1"), ("To", "<sip:b@svc.test>;tag=2"), ("Call-ID", call), ("CSeq", "1 OPTIONS")])
+        if tr == "UDP" and rcvd and rport is None:
+            # (the socket the response must arrive at is bound BEFORE the response is sent: a datagram for an unbound
+            # port is lost)
+            lines.append("wire bind %s" % hx("127.0.2.1:%d" % VP))
         lines.append("wire udp %s %s %s" % (hx(be), hx("%s:%d" % (lip, P)), hx(resp)))
         if tr == "UDP":
             if rcvd:
@@ -63,7 +67,6 @@ def gen_c07(g, lines, k):
                     lines.append("wire recv %s 800 msg=%s # spec=C07 dest U %s # spec=C07 vias %s" % (hx(ua), hx(resp), hx(ua), hxs([exp_v.text()])))
                 else:
                     tgt = "127.0.2.1:%d" % VP
-                    lines.append("wire bind %s" % hx(tgt))
                     lines.append("wire recv %s 800 msg=%s # spec=C07 dest U %s" % (hx(tgt), hx(resp), hx(tgt)))
             else:
                 hh, hp = exp_v.hop()
